@@ -277,6 +277,21 @@ class RMWorld(CompWorld):
 
 # ============================================================================ C10
 
+class ReleaseAction:
+    '''Event action: full release of reservation k (scheduled by 'late_release' to fall on the very last instant of the
+    next run, when the run's own end marker is queued for the same time).'''
+
+    def __init__(self, w, k):
+        self.w = w
+        self.k = k
+        self.__name__ = 'late_release'
+
+    def __call__(self):
+        rr, held, _ = self.w.res[self.k]
+        rr.release()                         # (the reference releases when it replays the run, see 'advance')
+        self.w.facts.append('released_at_end_of_run')
+
+
 class WaitCallback:
     def __init__(self, w, cid, kind, req_idx):
         self.w = w
@@ -332,6 +347,7 @@ class RMWaitWorld(CompWorld):
         self.ncb = 0
         self.log = []
         self.dirty = False             # something happened since the last drain
+        self.late_pending = False      # a 'late_release' event is queued
         self.prev_snap = _snapshot(self.rm, [])
         # exploration may start from a non-initial state: a fixed prefix of operations, not counted in the depth
         for lab in params.get('prefix', []):
@@ -350,6 +366,8 @@ class RMWaitWorld(CompWorld):
         if len(self.res) < self.max_res:
             out += [('reserve', i) for i in range(len(self.requests))]
         out += [('release', k) for k in range(len(self.res)) if self.res[k][1]]
+        if self.params.get('late_release') and not self.late_pending:
+            out += [('late_release', k) for k in range(len(self.res)) if self.res[k][1]]
         out += [('add', i) for i in range(len(self.adds))]
         if self.dirty:
             out.append(('drain',))
@@ -457,6 +475,10 @@ class RMWaitWorld(CompWorld):
             if rr is not None:
                 self.take(req)
                 self.res.append([rr, {r_: n_ for r_, n_ in req.items() if n_ > 0}, 'direct'])
+        elif k == 'late_release':
+            # the release happens from an event due exactly when the next run(1) ends
+            env.schedule_event(env.now + 1, 5, ReleaseAction(self, label[1]), EventType.OTHER_LOW_PRIORITY)
+            self.late_pending = True
         elif k == 'release':
             rr, held, _ = self.res[label[1]]
             rr.release()
@@ -485,12 +507,23 @@ class RMWaitWorld(CompWorld):
                     if n > 200:
                         raise Violation('termination', 'availability checks do not reach a fixpoint within one instant')
             else:
+                late = [e.action.k for e in env._events if isinstance(e.action, ReleaseAction)]
                 env.run(1)
+                self.late_pending = False
                 if env.now != t0 + 1:
                     raise Violation('clock', f'run(1) from {t0} ended at {env.now}')
                 self.facts.append('clock_advanced')
             self.ref_ncb = self.ncb - len(self.late_registered)
             exp = self.ref_check()
+            if k == 'advance' and late:
+                # the reference replays the run in order: checks of the first instant, then the release on the last
+                # instant and the check that follows it
+                for k_ in late:
+                    held = self.res[k_][1]
+                    for r, n in held.items():
+                        self.pool[r][0] -= n
+                    held.clear()
+                exp += self.ref_check()
             if self.log != exp:
                 raise Violation('callbacks', f'at t={t0}: callbacks invoked (id, fitted at that moment) {self.log}, '
                                              f'reference (registration order, first check at which it fits) {exp}; '
